@@ -244,7 +244,7 @@ def import_all(api, retained_types, retained_routes, tag):
 KINDS = ['field', 'list', 'map', 'nullable', 'nested', 'alias', 'alias_chain', 'alias_list', 'parent', 'subtypes_down', 'subtypes_up', 'union_tag', 'union_tag_list',
          'union_parent', 'default_tag', 'doc_type', 'doc_field', 'fielddoc_type', 'tagdoc_type', 'doc_route', 'routedoc_type', 'routedoc_route', 'routedoc_field', 'result', 'error',
          'route_alias', 'route_list', 'nsdoc_type', 'patch', 'version2', 'aliasdoc_type', 'deep_doc',
-         'doc_field_alias', 'routedoc_field_alias', 'parent_fielddoc', 'grandparent_fielddoc']
+         'doc_field_alias', 'routedoc_field_alias', 'parent_fielddoc', 'grandparent_fielddoc', 'same_field_first', 'same_field_second', 'same_alias_field_first', 'same_alias_field_second']
 SAME_NS_ONLY = {'subtypes_down', 'subtypes_up', 'patch'}
 
 
@@ -322,6 +322,15 @@ def gadget(kind, s, cross):
         go_doc = 'See :field:`%s.deep`.' % ((tn + '.' if tn else '') + 'Alt' + s)
     elif kind == 'fielddoc_type':
         start = mkstruct('Start' + s, fields=[mkfield('f', I32, doc='Holds a :type:`%s`.' % ((tn + '.' if tn else '') + 'Target' + s))])
+    elif kind in ('same_field_first', 'same_field_second', 'same_alias_field_first', 'same_alias_field_second'):
+        # two structs with a field of the same name and the same user-defined (or alias) type; only one of the two field docs names the target
+        ref_doc = 'Holds a :type:`%s`.' % ((tn + '.' if tn else '') + 'Target' + s)
+        docs = (ref_doc, 'Nothing here.') if kind.endswith('first') else ('Nothing here.', ref_doc)
+        ftype = R(None, 'ComAl' + s) if 'alias' in kind else R(None, 'Common')
+        home.append(Alias('ComAl' + s, R(None, 'Common'), None, ()))
+        home.append(mkstruct('HoldA' + s, fields=[mkfield('shared', ftype, doc=docs[0])]))
+        home.append(mkstruct('HoldB' + s, fields=[mkfield('shared', ftype, doc=docs[1])]))
+        start = mkstruct('Start' + s, fields=[mkfield('a', R(None, 'HoldA' + s)), mkfield('b', N(R(None, 'HoldB' + s)))])
     elif kind == 'tagdoc_type':
         start = mkunion('Start' + s, tags=[mktag('v', doc='Like :field:`%s.deep`.' % ((tn + '.' if tn else '') + 'Target' + s))])
     elif kind == 'doc_route':
